@@ -3,7 +3,7 @@ META = dict(
     rule=('cases = (wrapper, element type, shape/length, index type, index wrapper, index value); wrappers tainted<T[N]> (application layout) and '
           'tainted_volatile<T[N]> (guest layout, mbox lp32 memory); N = 1..16 for int and char, {1,2,3,8,16} for short/long/long long/int*/double; shapes '
           '2x3 and 3x2; 10 index types; every 8/16-bit index value, boundary + aliasing values (2^8+i, 2^16+i, 2^31+i, 2^32+i, 2^33+i, 2^63+i, negatives) '
-          'for 32/64-bit; plain, tainted and tainted_volatile indices. Oracle: abort iff idx<0 or idx>=len, else element address = start + idx*elem_size '
+          'for 32/64-bit (thorough: every index in [-300, 8*len+300] and 2^k+i, -2^k+i, 2^k-1-i for every k in 3..64); plain, tainted and tainted_volatile indices. Oracle: abort iff idx<0 or idx>=len, else element address = start + idx*elem_size '
           'of that layout and a store through it changes only that element (canaries). non-trivial = out-of-range index.'),
     assumptions=['aborts observed through RLBOX_CUSTOM_ABORT flag', 'arrays of structs in sandbox memory do not compile in RLBox and are absent'],
 )
